@@ -214,6 +214,14 @@ def atom_name(n):
             return n["name"]
         return (atom_name(b[0]) + "." if b else "") + n["name"]
     if k == "DeclRefExpr":
+        did = n.get("referencedDecl", {}).get("id")
+        init = cxfe.CONST_INLINE.get(did)
+        if init is not None and did not in _inlining:
+            _inlining.add(did)
+            try:
+                return atom_name(init)
+            finally:
+                _inlining.discard(did)
         return n["referencedDecl"].get("_u") or n["referencedDecl"].get("name", "?")
     sub = subscript(n)
     if sub is not None:
@@ -240,7 +248,7 @@ def poly(n, env=None):
         return poly(kids(n)[0], env)
     if k == "DeclRefExpr":
         did = n.get("referencedDecl", {}).get("id")
-        init = cxfe.INLINE.get(did)
+        init = cxfe.INLINE.get(did) or cxfe.CONST_INLINE.get(did)
         if init is not None and did not in _inlining:
             _inlining.add(did)
             try:
@@ -348,6 +356,8 @@ def const_int(n):
     if n.get("kind") == "UnaryOperator" and n.get("opcode") == "-":
         v = const_int(kids(n)[0])
         return -v if v is not None else None
+    if n.get("kind") == "UnaryOperator" and n.get("opcode") == "+":
+        return const_int(kids(n)[0])
     return None
 
 
@@ -366,6 +376,13 @@ def canon(n):
         return (canon(i[0]) + ("->" if n.get("isArrow") else ".") if i else "") + n["name"]
     if k == "DeclRefExpr":
         rd = n["referencedDecl"]
+        init = cxfe.CONST_INLINE.get(rd.get("id")) or cxfe.INLINE.get(rd.get("id"))
+        if init is not None and rd.get("id") not in _inlining:
+            _inlining.add(rd.get("id"))
+            try:
+                return canon(init)
+            finally:
+                _inlining.discard(rd.get("id"))
         return rd.get("_u") or rd.get("name", "?")
     if k in ("IntegerLiteral", "FloatingLiteral"):
         v = n["value"]
@@ -424,6 +441,14 @@ def cfacts(cond, positive):
     relational tests are normalised to  a < b / a <= b  with polarity"""
     c = strip(cond)
     k = c.get("kind")
+    if k == "DeclRefExpr":
+        init = cxfe.CONST_INLINE.get(c.get("referencedDecl", {}).get("id"))
+        if init is not None and c["referencedDecl"]["id"] not in _inlining:
+            _inlining.add(c["referencedDecl"]["id"])
+            try:
+                return cfacts(init, positive)
+            finally:
+                _inlining.discard(c["referencedDecl"]["id"])
     if k == "UnaryOperator" and c.get("opcode") == "!":
         return cfacts(kids(c)[0], not positive)
     if k == "BinaryOperator" and c.get("opcode") == "&&" and positive:
